@@ -274,3 +274,12 @@ def run_property(pid, module, tier, facts=None, write=True, replay=None):
         with open(os.path.join(EVIDENCE_DIR, pid + '.json'), 'w') as fh:
             json.dump(ev, fh, indent=1)
     return lines, violations, known_hits, ev, results
+
+
+def renamed(results, frm, to):
+    """results of another property's rule functions under property `to`'s name"""
+    out = []
+    for r in results:
+        nr = to + '.' + r.rule.split('.', 1)[1] if r.rule.startswith(frm + '.') else r.rule
+        out.append(R(nr, r.ok, key=r.key.replace(r.rule, nr, 1), msg=r.msg, where=r.where, path=r.path, sites=r.sites, detail=r.detail))
+    return out
